@@ -40,6 +40,8 @@ PROPS = {
     },
     "C19": {
         "units": ["budget"],
+        "native_cex": "c19_budget_replay",
+        "native_fallback": "c19_budget_replay",
         "kani": {"quick": ["c19_derived_order_complete"],
                  "thorough": ["c19_get_budget_bounded", "c19_make_annex_bounded", "c19_padding_end_to_end_bounded"]},
         "level": "proof",
@@ -102,6 +104,8 @@ PROPS = {
             "Frame::copy_from": ["c05_frame_copy_from_bounded"],
             "get_indices": ["c05_frame_write_bit_bounded", "c05_frame_read_peek_bounded"],
         },
+        "cex": {"Frame::write_bit": "c05_frame_write_bit_bounded", "Frame::read_bit": "c05_frame_read_peek_bounded", "Frame::peek_bit": "c05_frame_read_peek_bounded",
+                "Frame::write_u8": "c05_frame_write_u8_bounded", "Frame::copy_from": "c05_frame_copy_from_bounded"},
         "kani": {"quick": [], "thorough": ["c05_frame_write_bit_bounded", "c05_frame_read_peek_bounded", "c05_frame_write_u8_bounded", "c05_frame_copy_from_bounded"]},
         "level": "proof",
         "level_text": "Unbounded deductive proof (Verus) of the functional contract of every memory primitive the interpreter is built from: "
@@ -117,6 +121,8 @@ PROPS = {
     },
     "C11": {
         "units": ["value"],
+        "native_cex": "c11_value_order_replay",
+        "native_fallback": "c11_value_order_replay",
         "exclude_functions": {"value": ["Finalizer1::convert_witness", "Finalizer2::convert_witness", "DecodeFinalizer::convert_witness"]},
         "kani": {"quick": ["s07_usize_div_ceil_8"], "thorough": []},
         "level": "proof",
@@ -260,6 +266,7 @@ PROPS = {
         # the bit-level readers every decoder contract rests on (proved in unit bitstream, shared with C13)
         "functions": {"bitstream": ["BitIter::next", "BitIter::read_bit", "BitIter::read_u2", "BitIter::read_u8", "BitIter::read_natural", "BitIter::close"]},
         "native_cex": "c02_codec_replay",
+        "native_fallback": "c02_codec_replay",
         "kani": {"quick": ["c13_read_cmr_complete", "c13_read_cmr_short_complete"], "thorough": ["c13_read_fail_entropy_complete"]},
         "level": "proof",
         "level_text": "Deductive proof (Verus) on the real decode_node, decode_expression (src/bit_encoding/decode.rs) and ConstructNode::decode (src/node/construct.rs), for every input "
@@ -295,6 +302,7 @@ PROPS = {
         "kani": {"quick": [], "thorough": ["c01_encode_hash_bounded"]},
         "fallback": {"encode_hash": ["c01_encode_hash_bounded"]},
         "native_cex": "c02_codec_replay",
+        "native_fallback": "c02_codec_replay",
         "level": "proof",
         "level_text": "Deductive proof (Verus) on the real serialiser (src/bit_encoding/encode.rs): encode_node writes exactly ncode(abstract content of the node) for every node kind, position "
                       "and child distance - the same function decode_node's consumed bits are proved to equal (unit `decode`, C02) - and its debug assertions / unreachable arms cannot fire for "
